@@ -15,7 +15,7 @@ import (
 func init() {
 	register("C10", "generated histories (as C01) in which, at every wait, every type of resume (msg, wait_timeout, run_expiration, dial) is tried on a freshly "+
 		"restored copy of the session, with and without a fault injected into the asset store between sprints (waiting run's flow deleted, its node deleted, "+
-		"its wait removed, parent flow deleted) and with small resume limits; non-trivial = distinct (fault, resume type, outcome class, session shape)", runC10)
+		"its wait removed, its router removed, parent flow deleted) and with small resume limits; non-trivial = distinct (fault, resume type, outcome class, session shape)", runC10)
 }
 
 var allResumeSpecs = []string{"msg:red", "timeout", "expiration", "dial:answered"}
@@ -84,6 +84,22 @@ var faults = []fault{
 		f.Nodes[ni].Router["operand"] = "@contact.name"
 		f.Nodes[ni].HasWait = ""
 		// a timeout category may stay as an ordinary category
+		return true
+	}, true},
+	{"router-removed", func(ga *genAssets, cs *canonSession) bool {
+		w := waitingOf(cs)
+		if w < 0 || cs.Runs[w].Flow < 0 || len(cs.Runs[w].Path) == 0 {
+			return false
+		}
+		f := ga.Flows[cs.Runs[w].Flow]
+		ni := cs.Runs[w].Path[len(cs.Runs[w].Path)-1].Node
+		if ni >= len(f.Nodes) || f.Nodes[ni].Router == nil {
+			return false
+		}
+		// the node keeps its UUID and exits but becomes a plain node (e.g. edited into a send_msg node)
+		f.Nodes[ni].Router = nil
+		f.Nodes[ni].HasWait = ""
+		f.Nodes[ni].Actions = []map[string]any{{"uuid": "9487a60e-a6ef-4a88-b35d-894bfe074144", "type": "send_msg", "text": "edited"}}
 		return true
 	}, true},
 	{"parent-flow-deleted", func(ga *genAssets, cs *canonSession) bool {
@@ -195,7 +211,7 @@ func runC10(c *Ctx) {
 				}
 			}
 			if i < 2 && ncall == 1 {
-				c.Sample(map[string]any{"model_assets": ec.GA.ModelSpec(nil), "session_at_wait": call.Post.enc(), "faults": []string{"none", "flow-deleted", "node-deleted", "wait-removed", "parent-flow-deleted"}, "resumes": allResumeSpecs})
+				c.Sample(map[string]any{"model_assets": ec.GA.ModelSpec(nil), "session_at_wait": call.Post.enc(), "faults": []string{"none", "flow-deleted", "node-deleted", "wait-removed", "router-removed", "parent-flow-deleted"}, "resumes": allResumeSpecs})
 			}
 		})
 	}
